@@ -12,6 +12,7 @@ import os
 
 from vlib import tlc, gobuild
 from vlib.core import Inconclusive
+from props import layoutpipe as lp
 
 LEVEL = "model_checking"
 
@@ -67,17 +68,43 @@ def run(ctx):
                 cls = "history:" + rec["vid"].rstrip("0123456789")
                 detail = "value %s after %d prior Encodes renders as %r" % (rec["vid"], rec["n"], bs(rec["text"])[:200])
             ctx.violation(cls, "%s: %s" % (b["what"], detail), {"what": b["what"], "record": rec})
-    ctx.cover(states=r.distinct + rt.distinct, transitions=r.generated + rt.generated, traces_validated_against_impl=summ["lines"],
-              evaluations=summ["lines"], distinct_nontrivial=summ["strings"] + summ["samples"], strings=summ["strings"], struct_samples=summ["samples"],
-              encoder_reuse=summ["reuse"],
+    # ---- second half: every field kind x default x union/group membership of the TLC-generated schemas
+    greq, gstats = lp.generated_request(ctx, every=8 if ctx.quick else 1)
+    gen, overlay, srcs, results = lp.prepare(ctx, extra_requests=[greq])
+    driven = [n for n in ["aircraft", "gen"] if results[n]["rc"] == 0]
+    if "gen" not in driven:
+        raise Inconclusive("capnpc-go failed on the generated request (C15 decides that): " + results["gen"]["stderr"][-300:])
+    summ2, sd2, tf2 = lp.drive(ctx, "text", overlay, srcs, driven, trace="texttrace.ndjson")
+    rt2 = tlc.run(ctx, sd2, "TextTrace", cfg="TextTrace.cfg", workers=1, timeout=3400, heap="12g", stack=True)
+    cons = rt2.tagged("CONSUMED")
+    if not cons or cons[0]["n"] != summ2["lines"]:
+        raise Inconclusive("TextTrace consumed %s of %d lines (generated schemas)" % (cons, summ2["lines"]))
+    bad = rt2.tagged("TEXTBAD")
+    if bad:
+        with open(tf2) as f:
+            lines = f.readlines()
+        for b in bad:
+            rec = json.loads(lines[b["line"] - 1])
+            bs = lambda x: bytes(x).decode("latin-1")
+            if rec["k"] == "field":
+                tok = bs(rec["tok"])
+                shape = "inf/nan" if tok.lower().lstrip("+-") in ("inf", "nan") else "other"
+                cls = "genfield:%s:%s:%s" % (b["what"], rec["kind"], shape)
+                detail = "type %s field %s shows %r, accessor returns %r" % (rec["vid"], rec["path"], tok, bs(rec["acc"]))
+            else:
+                cls = "gen:%s" % b["what"]
+                detail = rec["vid"]
+            ctx.violation(cls, "%s: %s" % (b["what"], detail), {"what": b["what"], "record": rec})
+    ctx.cover(states=r.distinct + rt.distinct + rt2.distinct, transitions=r.generated + rt.generated + rt2.generated,
+              traces_validated_against_impl=summ["lines"] + summ2["lines"],
+              evaluations=summ["lines"] + summ2["lines"], distinct_nontrivial=summ["strings"] + summ["samples"] + summ2["types"], strings=summ["strings"], struct_samples=summ["samples"],
+              encoder_reuse=summ["reuse"], generated_layouts=gstats, generated_types=summ2["types"], generated_records=summ2["counts"],
               rule="strings = every string of <= MaxLen bytes over 10 class representatives (from TLC) + every single byte alone and between letters; "
                    "each through strquote.Append and as Text / List(Text) element / Data of rendered structs; struct samples of Zdate, PlaneBase, "
                    "HoldsText, Zdata, Z with boundary numbers, enums, booleans; each field token paired with the generated accessor's value; "
-                   "a long-lived Encoder re-renders a probe set after 1, 10, 1000 and every reuse/16 prior Encodes (half of them of Z, the largest field table)",
+                   "a long-lived Encoder re-renders a probe set after 1, 10, 1000 and every reuse/16 prior Encodes (half of them of Z, the largest field table); "
+                   "every struct type of the aircraft request and of the TLC-generated schemas (SchemaGen: kind x default x union/group membership): each primitive, Text and Data "
+                   "field set to 2-10 values (floats incl. inf, -inf, nan), rendered, parsed back; every field shown must be a well-formed word / literal denoting the generated getter's value",
               exhaustive=True)
     ctx.sample({"string": strs[len(strs) // 2]})
     ctx.assume("the harness' tokenizer of the text format splits at the quote that ends a literal (a backslash escapes the next byte)")
-
-
-def replay(ctx, robj):
-    raise Inconclusive("re-run bin/check C20; the failing record is in the replay file")
